@@ -35,6 +35,9 @@ CLAIMS = {
  "C12": ("path-sensitive linear bounds prover over SSA (index/slice/make obligations) with overflow side conditions, second pass GOARCH=386 in the thorough tier",
          "Decides the decoding half: every index and slice expression of the length-encoded decoders in mysql/encoding.go is proven in bounds from dominating comparisons for all inputs (any data, any pos >= 0, any size). The round-trip half is value equality and not covered.",
          "Preconditions 0 <= pos <= 2^62 and len(data) <= 2^62; prover is sound but incomplete (unproven = reported).", "§4 C12"),
+ "C15": ("writer/reader table agreement (dynamic types stored into Stmt.args vs the type switch of util.ItoString, read from SSA) + def-use and phi-edge analysis of the placeholder splice in GetRewriteSQL (escapeSQL(ItoString(arg)) on every path, quotes exactly on the quote edge) + constant agreement (escaped byte set contains the wrapping quote and the backslash, in both sql_mode branches) + data dependence of the escaping on the session's sql_mode from handleStmtExecute + def-use of the executed text",
+         "Decides the shape of the splice only: no byte-carrying value is bound under a type the renderer leaves bare; everything written for a placeholder went through the escaping; the escaping covers the character the literal is wrapped in; the escaping depends on the session's sql_mode (which the client can change through the pass-through SET); the text executed is the rewritten one. NOT decided: that the produced literal denotes exactly the bound bytes (value-level: multi-byte character sets, NUL bytes, float formatting, NaN/Inf), nor backend-global sql_mode the proxy cannot see.",
+         "", "§9 C15"),
  "C16": ("must-pass-through (bind -> ResetParams on every exit, deferred or direct) + comma-ok lookup discipline on the statement map",
          "Decides 'a failed execution leaves no bound value behind' (every exit after binding passes ResetParams) and 'commands on unknown ids fail'. Long-data interleaving values are not covered.",
          "Writers of Stmt.args are the frozen who-may-write table.", "§4 C16"),
@@ -101,7 +104,6 @@ NA = {
  "C08": "Numerical equality with a Java reference implementation (UTF-16 code units, 32-bit wraparound).",
  "C13": "Value equality per column type between text and binary protocol rows.",
  "C14": "Agreement of the hand-written placeholder scanner with the SQL lexer over all texts (language equivalence over inputs).",
- "C15": "Quantifies over byte values of parameters and sql_mode; escaping correctness is a fact about string contents.",
  "C36": "Metamorphic equality of the fingerprint over statement variants is a property of string transformations.",
 }
 
